@@ -193,8 +193,21 @@ func (c *Ctx) rulePseudoTotal() {
 							restricted = "case SchemaNotationAny, SchemaNotationEmpty"
 						}
 					}
-					if p.List == nil && f.Obj.Name() == "NewHTTPResponseBody" && formatTableOK {
-						restricted = "default of the switch over the serialise format; SchemaSerializeFormat maps only any/empty to a format other than json/plainString"
+					if p.List == nil && formatTableOK && i >= 2 {
+						// default of a switch over a SerializeFormat value that has cases for json and plainString
+						if sw, isSw := stack[i-2].(*ast.SwitchStmt); isSw && sw.Tag != nil && namedType(pk.TypesInfo.TypeOf(sw.Tag)) == prog.ModulePath+"/catalog.SerializeFormat" {
+							seen := map[string]bool{}
+							for _, cs := range sw.Body.List {
+								for _, e := range cs.(*ast.CaseClause).List {
+									if k := constObj(pk, e); k != nil {
+										seen[k.Name()] = true
+									}
+								}
+							}
+							if seen["SerializeFormatJSON"] && seen["SerializeFormatPlainString"] {
+								restricted = "default of a switch over the serialise format with cases for json and plainString; SchemaSerializeFormat maps only any/empty to another format"
+							}
+						}
 					}
 				case *ast.IfStmt:
 					if p.Body.Pos() <= call.Pos() && call.End() <= p.Body.End() && mentionsAnyEmpty(p.Cond) {
